@@ -22,7 +22,7 @@ def Quirks.current : Quirks :=
     decrbyMinAccepted := true, lmoveSelfSingleLoses := true, hincrbyCmpDelta := true,
     hsetnxOverwrites := true, abortedExecStaysMulti := true, queueErrorNoAbort := true,
     inplaceKeepsVersion := true, rawLookupSeesExpired := true, flushDetaches := true,
-    helloAnyVersion := true, resp2Scalars := true, dirtyIncomplete := true,
+    helloAnyVersion := true, resp2Scalars := false, dirtyIncomplete := true,
     bitcountClamp := true, bitcountEmptyCrash := true, bfSignedOverflow64 := true,
     bfSetOverflowUsesSum := true, unlinkKeepsObject := true, getexNoOptPersists := true,
     bitposPartialEnd := true, bitopEmptyCreates := true, lcsRunes := true }
